@@ -210,6 +210,12 @@ func main() {
 		}
 	}
 	sort.Strings(out.PurePkgFunc)
+	for g := range govPkgs {
+		if purePkgs[g] {
+			out.PureGovPkgs = append(out.PureGovPkgs, g)
+		}
+	}
+	sort.Strings(out.PureGovPkgs)
 
 	os.MkdirAll(*outDir, 0o755)
 	jb, _ := json.MarshalIndent(out, "", " ")
